@@ -4,11 +4,15 @@
 import VotelibModel.Biprop
 import Mathlib.Algebra.BigOperators.Group.Finset.Basic
 import Mathlib.Algebra.BigOperators.Group.Finset.Sigma
+import Mathlib.Algebra.BigOperators.Group.Finset.Piecewise
 import Mathlib.Algebra.Order.BigOperators.Group.Finset
 import Mathlib.Algebra.Order.Ring.Rat
 import Mathlib.Algebra.Order.Field.Basic
 import Mathlib.Tactic.Linarith
 import Mathlib.Tactic.Ring
+import Mathlib.Tactic.FieldSimp
+import Mathlib.Data.List.Nodup
+import Mathlib.Data.List.Count
 namespace VL.Biprop
 open Finset
 
@@ -64,5 +68,890 @@ theorem shapeOk_row {α : Type} {M : Mat α} {m n : Nat} (h : shapeOk M m n = tr
   have hi' : i < M.length := by omega
   rw [List.getD_eq_getElem?_getD, List.getElem?_eq_getElem hi']
   exact h2 _ (List.getElem_mem hi')
+
+end VL.Biprop
+
+namespace VL.Biprop
+open Finset
+
+def inb (x : Mat Nat) (i j : Nat) : Prop := i < x.length ∧ j < (x.getD i []).length
+instance (x : Mat Nat) (i j : Nat) : Decidable (inb x i j) := by unfold inb; exact inferInstance
+
+theorem mget_modify (x : Mat Nat) (f : Nat → Nat) (i j i' j' : Nat) :
+    mget (x.modify i (fun r => r.modify j f)) i' j' =
+      if i = i' ∧ j = j' ∧ inb x i j then f (mget x i' j') else mget x i' j' := by
+  unfold mget inb
+  simp only [List.getD_eq_getElem?_getD, List.getElem?_modify]
+  cases hx : x[i']? with
+  | none =>
+    have : x.length ≤ i' := by simpa using hx
+    simp
+    intro h1 h2 h3; omega
+  | some r =>
+    have hi' : i' < x.length := by
+      by_contra hc; simp at hc; simp [List.getElem?_eq_none hc] at hx
+    by_cases hii : i = i'
+    · subst hii
+      simp only [Option.map_eq_map, Option.map_some, if_true, Option.getD_some, List.getElem?_modify, hx, true_and]
+      cases hr : r[j']? with
+      | none =>
+        have : r.length ≤ j' := by simpa using hr
+        simp
+        intro h1 h2 h3; omega
+      | some a =>
+        have hj' : j' < r.length := by
+          by_contra hc; simp at hc; simp [List.getElem?_eq_none hc] at hr
+        by_cases hjj : j = j'
+        · subst hjj; simp [hi', hj']
+        · simp [hjj]
+    · simp [hii]
+
+end VL.Biprop
+
+namespace VL.Biprop
+open Finset
+
+theorem inb_of_shape {x : Mat Nat} {m n i j : Nat} (h : shapeOk x m n = true) (hi : i < m) (hj : j < n) :
+    inb x i j := by
+  refine ⟨?_, ?_⟩
+  · have := ((shapeOk_iff x m n).mp h).1; omega
+  · rw [shapeOk_row h hi]; exact hj
+
+theorem shapeOk_modify {x : Mat Nat} {m n : Nat} (h : shapeOk x m n = true) (i j : Nat) (f : Nat → Nat) :
+    shapeOk (x.modify i (fun r => r.modify j f)) m n = true := by
+  rw [shapeOk_iff] at h ⊢
+  refine ⟨by simpa using h.1, ?_⟩
+  intro r hr
+  obtain ⟨k, hk, rfl⟩ := List.mem_iff_getElem.mp hr
+  rw [List.getElem_modify]
+  have hk' : k < x.length := by simpa using hk
+  split
+  · rw [List.length_modify]; exact h.2 _ (List.getElem_mem hk')
+  · exact h.2 _ (List.getElem_mem hk')
+
+theorem mget_madd1 {x : Mat Nat} {m n : Nat} (h : shapeOk x m n = true) {i j : Nat} (hi : i < m) (hj : j < n)
+    (i' j' : Nat) : mget (madd1 x i j) i' j' = mget x i' j' + (if i = i' ∧ j = j' then 1 else 0) := by
+  unfold madd1
+  rw [mget_modify]
+  have := inb_of_shape h hi hj
+  by_cases hc : i = i' ∧ j = j'
+  · obtain ⟨rfl, rfl⟩ := hc; simp [this]
+  · have : ¬ (i = i' ∧ j = j' ∧ inb x i j) := fun hh => hc ⟨hh.1, hh.2.1⟩
+    simp [hc, this]
+
+theorem mget_msub1 {x : Mat Nat} {m n : Nat} (h : shapeOk x m n = true) {i j : Nat} (hi : i < m) (hj : j < n)
+    (i' j' : Nat) : mget (msub1 x i j) i' j' = mget x i' j' - (if i = i' ∧ j = j' then 1 else 0) := by
+  unfold msub1
+  rw [mget_modify]
+  have := inb_of_shape h hi hj
+  by_cases hc : i = i' ∧ j = j'
+  · obtain ⟨rfl, rfl⟩ := hc; simp [this]
+  · have : ¬ (i = i' ∧ j = j' ∧ inb x i j) := fun hh => hc ⟨hh.1, hh.2.1⟩
+    simp [hc, this]
+
+theorem sumN_congr {f g : Nat → Nat} {n : Nat} (h : ∀ k < n, f k = g k) : sumN f n = sumN g n := by
+  rw [sumN_eq_sum, sumN_eq_sum]
+  exact Finset.sum_congr rfl (fun k hk => h k (Finset.mem_range.mp hk))
+
+theorem sumN_single (n i : Nat) (hi : i < n) : sumN (fun k => if i = k then 1 else 0) n = 1 := by
+  rw [sumN_eq_sum, Finset.sum_ite_eq]; simp [hi]
+
+theorem sumN_add (f g : Nat → Nat) (n : Nat) : sumN (fun k => f k + g k) n = sumN f n + sumN g n := by
+  rw [sumN_eq_sum, sumN_eq_sum, sumN_eq_sum, Finset.sum_add_distrib]
+
+theorem sumN_zero (n : Nat) : sumN (fun _ => 0) n = 0 := by
+  rw [sumN_eq_sum]; simp
+
+/-- column sums after one more seat in an in-range cell -/
+theorem col_madd1 {x : Mat Nat} {m n : Nat} (h : shapeOk x m n = true) {i j : Nat} (hi : i < m) (hj : j < n)
+    (j' : Nat) : sumN (fun k => mget (madd1 x i j) k j') m
+      = sumN (fun k => mget x k j') m + (if j = j' then 1 else 0) := by
+  rw [sumN_congr (fun k _ => mget_madd1 h hi hj k j'), sumN_add]
+  by_cases hjj : j = j'
+  · subst hjj
+    simp only [and_true, if_true]
+    rw [sumN_single m i hi]
+  · simp [hjj, sumN_zero]
+
+theorem col_msub1 {x : Mat Nat} {m n : Nat} (h : shapeOk x m n = true) {i j : Nat} (hi : i < m) (hj : j < n)
+    (hpos : mget x i j ≠ 0) (j' : Nat) :
+    sumN (fun k => mget (msub1 x i j) k j') m + (if j = j' then 1 else 0)
+      = sumN (fun k => mget x k j') m := by
+  by_cases hjj : j = j'
+  · subst hjj
+    simp only [if_true]
+    rw [← sumN_single m i hi, ← sumN_add]
+    apply sumN_congr
+    intro k hk
+    rw [mget_msub1 h hi hj]
+    by_cases hik : i = k
+    · subst hik; simp; omega
+    · simp [hik]
+  · simp only [hjj, if_false, Nat.add_zero]
+    apply sumN_congr
+    intro k hk
+    rw [mget_msub1 h hi hj]
+    simp [hjj]
+
+/-- the triples of a path stay inside the matrix -/
+def PathIn (m n : Nat) (path : List (Nat × Nat × Nat)) : Prop :=
+  ∀ c ∈ path, c.1 < m ∧ c.2.1 < n ∧ c.2.2 < m
+
+theorem applyPath_cols {m n : Nat} : ∀ (path : List (Nat × Nat × Nat)) (x x' : Mat Nat),
+    shapeOk x m n = true → PathIn m n path → applyPath path x = .ok x' →
+    shapeOk x' m n = true ∧ ∀ j, sumN (fun i => mget x' i j) m = sumN (fun i => mget x i j) m
+  | [], x, x', hs, _, h => by
+    simp only [applyPath, Except.ok.injEq] at h; subst h; exact ⟨hs, fun _ => rfl⟩
+  | (d, p, d') :: rest, x, x', hs, hin, h => by
+    obtain ⟨hd, hp, hd'⟩ : d < m ∧ p < n ∧ d' < m := hin (d, p, d') (List.mem_cons_self)
+    simp only [applyPath] at h
+    split at h
+    · exact absurd h (by simp)
+    · rename_i hne
+      have hs1 : shapeOk (madd1 x d p) m n = true := shapeOk_modify hs d p _
+      have hs2 : shapeOk (msub1 (madd1 x d p) d' p) m n = true := shapeOk_modify hs1 d' p _
+      obtain ⟨hs', hcols⟩ := applyPath_cols rest _ x' hs2
+        (fun c hc => hin c (List.mem_cons_of_mem _ hc)) h
+      refine ⟨hs', fun j => ?_⟩
+      rw [hcols j]
+      have h1 := col_madd1 hs hd hp j
+      have h2 := col_msub1 hs1 hd' hp hne j
+      omega
+
+end VL.Biprop
+
+namespace VL.Biprop
+
+theorem foldl_inv {α β : Type} (P : β → Prop) (f : β → α → β) :
+    ∀ (l : List α) (init : β), P init → (∀ b a, a ∈ l → P b → P (f b a)) → P (l.foldl f init)
+  | [], init, h0, _ => h0
+  | a :: l, init, h0, hstep => by
+    rw [List.foldl_cons]
+    exact foldl_inv P f l (f init a) (hstep init a List.mem_cons_self h0)
+      (fun b a' ha' hb => hstep b a' (List.mem_cons_of_mem _ ha') hb)
+
+theorem lookupKey_mem {α : Type} {l : List (Nat × α)} {k : Nat} {v : α} (h : lookupKey l k = some v) :
+    (k, v) ∈ l := by
+  unfold lookupKey at h
+  split at h
+  · rename_i e he
+    have h1 := List.find?_some he
+    have h2 := List.mem_of_find?_eq_some he
+    simp only [Option.some.injEq] at h
+    have : e.1 = k := by simpa using h1
+    rw [← this, ← h]; exact h2
+  · exact absurd h (by simp)
+
+/-- what the labels mean: a labelled district (other than a start district) was reached from its party through
+    an upgradable cell, a labelled party from its district through a downgradable cell; all inside the matrix -/
+def LabDOk (q : Rat) (qt : Nat → Nat → Rat) (x : Mat Nat) (m n : Nat) (labD : LabD) : Prop :=
+  ∀ e ∈ labD, e.1 < m ∧ ∀ p, e.2 = some p → p < n ∧ isUp q (qt e.1 p) (mget x e.1 p) = true
+def LabPOk (q : Rat) (qt : Nat → Nat → Rat) (x : Mat Nat) (m n : Nat) (labP : LabP) : Prop :=
+  ∀ e ∈ labP, e.1 < n ∧ e.2 < m ∧ isDown q (qt e.2 e.1) (mget x e.2 e.1) = true
+
+theorem phase1_ok {q : Rat} {qt : Nat → Nat → Rat} {x : Mat Nat} {m n : Nat} {labD : LabD} {labP : LabP}
+    (hD : LabDOk q qt x m n labD) (hP : LabPOk q qt x m n labP) :
+    LabPOk q qt x m n (phase1 q qt x n labD labP) := by
+  unfold phase1
+  apply foldl_inv (LabPOk q qt x m n) _ labD labP hP
+  intro lp e he hlp
+  apply foldl_inv (LabPOk q qt x m n) _ (List.range n) lp hlp
+  intro lp' p hp hlp'
+  split
+  · rename_i hc
+    intro e' he'
+    rcases List.mem_append.mp he' with h | h
+    · exact hlp' e' h
+    · simp only [List.mem_singleton] at h
+      subst h
+      simp only [Bool.and_eq_true] at hc
+      exact ⟨List.mem_range.mp hp, (hD e he).1, hc.2⟩
+  · exact hlp'
+
+theorem phase2_ok {q : Rat} {qt : Nat → Nat → Rat} {x : Mat Nat} {m n : Nat} {labD : LabD} {labP : LabP}
+    (hD : LabDOk q qt x m n labD) (hP : LabPOk q qt x m n labP) :
+    LabDOk q qt x m n (phase2 q qt x m labD labP) := by
+  unfold phase2
+  apply foldl_inv (LabDOk q qt x m n) _ labP labD hD
+  intro ld e he hld
+  apply foldl_inv (LabDOk q qt x m n) _ (List.range m) ld hld
+  intro ld' d hd hld'
+  split
+  · rename_i hc
+    intro e' he'
+    rcases List.mem_append.mp he' with h | h
+    · exact hld' e' h
+    · simp only [List.mem_singleton] at h
+      subst h
+      simp only [Bool.and_eq_true] at hc
+      refine ⟨List.mem_range.mp hd, ?_⟩
+      intro p hp
+      simp only [Option.some.injEq] at hp
+      subst hp
+      exact ⟨(hP e he).1, hc.2⟩
+  · exact hld'
+
+theorem labelLoop_ok {q : Rat} {qt : Nat → Nat → Rat} {x : Mat Nat} {m n : Nat} {under : List Nat} :
+    ∀ (f : Nat) (labD : LabD) (labP : LabP), LabDOk q qt x m n labD → LabPOk q qt x m n labP →
+      LabDOk q qt x m n (labelLoop q qt x m n under f labD labP).1 ∧
+      LabPOk q qt x m n (labelLoop q qt x m n under f labD labP).2
+  | 0, _, _, hD, hP => ⟨hD, hP⟩
+  | f+1, labD, labP, hD, hP => by
+    have hP' := phase1_ok hD hP
+    have hD' := phase2_ok hD hP'
+    simp only [labelLoop]
+    split
+    · exact ⟨hD', hP'⟩
+    · split
+      · exact ⟨hD', hP'⟩
+      · exact labelLoop_ok f _ _ hD' hP'
+
+theorem labeled_ok {q : Rat} {qt : Nat → Nat → Rat} {x : Mat Nat} {m n : Nat} {under over : List Nat}
+    (hover : ∀ d ∈ over, d < m) :
+    LabDOk q qt x m n (labeled q qt x m n under over).1 ∧ LabPOk q qt x m n (labeled q qt x m n under over).2 := by
+  unfold labeled
+  apply labelLoop_ok
+  · intro e he
+    obtain ⟨d, hd, rfl⟩ := List.mem_map.mp he
+    exact ⟨hover d hd, fun p hp => by simp at hp⟩
+  · intro e he; simp at he
+
+/-- the cells of a transfer path: every `+1` cell is upgradable, every `−1` cell downgradable (w.r.t. the seat
+    matrix the labels were computed from), all inside the matrix -/
+def PathCells (q : Rat) (qt : Nat → Nat → Rat) (x : Mat Nat) (m n : Nat) (path : List (Nat × Nat × Nat)) : Prop :=
+  ∀ c ∈ path, c.1 < m ∧ c.2.1 < n ∧ c.2.2 < m ∧
+    isUp q (qt c.1 c.2.1) (mget x c.1 c.2.1) = true ∧ isDown q (qt c.2.2 c.2.1) (mget x c.2.2 c.2.1) = true
+
+theorem augPath_cells {q : Rat} {qt : Nat → Nat → Rat} {x : Mat Nat} {m n : Nat} {labD : LabD} {labP : LabP}
+    {over : List Nat} (hD : LabDOk q qt x m n labD) (hP : LabPOk q qt x m n labP) :
+    ∀ (f d : Nat) (path : List (Nat × Nat × Nat)), augPath labD labP over f d = .ok path →
+      PathCells q qt x m n path
+  | 0, _, _, h => by simp [augPath] at h
+  | f+1, d, path, h => by
+    simp only [augPath] at h
+    split at h
+    · simp only [Except.ok.injEq] at h; subst h; intro c hc; simp at hc
+    · split at h
+      · rename_i p hl
+        split at h
+        · rename_i d' hl'
+          split at h
+          · rename_i rest hrest
+            simp only [Except.ok.injEq] at h; subst h
+            have hmD := hD _ (lookupKey_mem hl)
+            have hmP := hP _ (lookupKey_mem hl')
+            have ih := augPath_cells hD hP f d' rest hrest
+            intro c hc
+            rcases List.mem_cons.mp hc with rfl | hc
+            · exact ⟨hmD.1, (hmD.2 p rfl).1, hmP.2.1, (hmD.2 p rfl).2, hmP.2.2⟩
+            · exact ih c hc
+          · exact absurd h (by simp)
+        · exact absurd h (by simp)
+      · exact absurd h (by simp)
+
+theorem PathCells.pathIn {q : Rat} {qt : Nat → Nat → Rat} {x : Mat Nat} {m n : Nat} {path : List (Nat × Nat × Nat)}
+    (h : PathCells q qt x m n path) : PathIn m n path :=
+  fun c hc => ⟨(h c hc).1, (h c hc).2.1, (h c hc).2.2.1⟩
+
+end VL.Biprop
+
+namespace VL.Biprop
+
+theorem filter_range_nil {m : Nat} {p : Nat → Bool} (h : ((List.range m).filter p).isEmpty = true) :
+    ∀ i < m, p i = false := by
+  intro i hi
+  rw [List.isEmpty_iff] at h
+  have := List.filter_eq_nil_iff.mp h i (List.mem_range.mpr hi)
+  simpa using this
+
+theorem step_done {q : Rat} {V : Mat Rat} {tgt : List Nat} {s : State} (h : step q V tgt s = .ok .done) :
+    ∀ i < V.length, rowSum s.x i = tgt.getD i 0 := by
+  unfold step at h
+  simp only at h
+  split at h
+  · rename_i hc
+    simp only [Bool.and_eq_true] at hc
+    intro i hi
+    have h1 := filter_range_nil hc.1 i hi
+    have h2 := filter_range_nil hc.2 i hi
+    simp only [decide_eq_false_iff_not] at h1 h2
+    omega
+  · exfalso
+    generalize labeled q (quot V s) s.x V.length (nCols V) _ _ = L at h
+    obtain ⟨labD, labP⟩ := L
+    simp only at h
+    split at h
+    · split at h <;> simp at h
+    · split at h
+      · simp at h
+      · split at h <;> simp at h
+
+theorem step_transfer {q : Rat} {V : Mat Rat} {tgt : List Nat} {s s' : State}
+    (h : step q V tgt s = .ok (.transfer s')) :
+    s'.dc = s.dc ∧ s'.pc = s.pc ∧ ∃ path, PathCells q (quot V s) s.x V.length (nCols V) path ∧
+      applyPath path s.x = .ok s'.x ∧
+      ∃ labD labP over f start, augPath labD labP over f start = .ok path := by
+  unfold step at h
+  simp only at h
+  split at h
+  · simp at h
+  · have hover : ∀ d ∈ (List.range V.length).filter (fun i => decide (rowSum s.x i > tgt.getD i 0)), d < V.length :=
+      fun d hd => List.mem_range.mp (List.mem_filter.mp hd).1
+    have hlab := labeled_ok (q := q) (qt := quot V s) (x := s.x) (n := nCols V)
+      (under := (List.range V.length).filter (fun i => decide (rowSum s.x i < tgt.getD i 0))) hover
+    revert hlab
+    generalize labeled q (quot V s) s.x V.length (nCols V) _ _ = L at h
+    obtain ⟨labD, labP⟩ := L
+    intro hlab
+    simp only at h hlab
+    split at h
+    · rename_i start _ _
+      cases haug : augment s.x labD labP start
+          ((List.range V.length).filter (fun i => decide (rowSum s.x i > tgt.getD i 0))) (V.length + nCols V + 2) with
+      | error e => rw [haug] at h; simp at h
+      | ok x' =>
+        rw [haug] at h
+        simp only [Except.ok.injEq, Step.transfer.injEq] at h
+        subst h
+        unfold augment at haug
+        cases hpath : augPath labD labP
+            ((List.range V.length).filter (fun i => decide (rowSum s.x i > tgt.getD i 0))) (V.length + nCols V + 2) start with
+        | error e => rw [hpath] at haug; simp at haug
+        | ok path =>
+          rw [hpath] at haug
+          exact ⟨rfl, rfl, path, augPath_cells hlab.1 hlab.2 _ _ _ hpath, haug, _, _, _, _, _, hpath⟩
+    · split at h
+      · simp at h
+      · split at h <;> simp at h
+
+end VL.Biprop
+
+namespace VL.Biprop
+
+theorem maxFold_ge_init : ∀ (l : List Rat) (init : Rat), init ≤ maxFold init l
+  | [], init => le_refl _
+  | b :: l, init => by
+    unfold maxFold; rw [List.foldl_cons]
+    have := maxFold_ge_init l (if b > init then b else init)
+    unfold maxFold at this
+    refine le_trans ?_ this
+    split <;> linarith
+
+theorem maxFold_ge_mem : ∀ (l : List Rat) (init : Rat) (a : Rat), a ∈ l → a ≤ maxFold init l
+  | b :: l, init, a, ha => by
+    unfold maxFold; rw [List.foldl_cons]
+    rcases List.mem_cons.mp ha with rfl | ha
+    · have := maxFold_ge_init l (if a > init then a else init)
+      unfold maxFold at this
+      refine le_trans ?_ this
+      split <;> linarith
+    · have := maxFold_ge_mem l (if b > init then b else init) a ha
+      unfold maxFold at this; exact this
+
+theorem minFold_le_mem {l : List Rat} {b : Rat} (h : minFold l = some b) : ∀ a ∈ l, b ≤ a := by
+  cases l with
+  | nil => simp [minFold] at h
+  | cons c rest =>
+    simp only [minFold, Option.some.injEq] at h
+    subst h
+    have key : ∀ (l : List Rat) (init : Rat),
+        (l.foldl (fun a c => if c < a then c else a) init ≤ init) ∧
+        ∀ a ∈ l, l.foldl (fun a c => if c < a then c else a) init ≤ a := by
+      intro l
+      induction l with
+      | nil => intro init; exact ⟨le_refl _, fun a ha => by simp at ha⟩
+      | cons d l ih =>
+        intro init
+        rw [List.foldl_cons]
+        obtain ⟨h1, h2⟩ := ih (if d < init then d else init)
+        refine ⟨le_trans h1 (by split <;> linarith), ?_⟩
+        intro a ha
+        rcases List.mem_cons.mp ha with rfl | ha
+        · refine le_trans h1 ?_; split <;> linarith
+        · exact h2 a ha
+    intro a ha
+    rcases List.mem_cons.mp ha with rfl | ha
+    · exact (key rest a).1
+    · exact (key rest c).2 a ha
+
+theorem minFold_mem {l : List Rat} {b : Rat} (h : minFold l = some b) : b ∈ l := by
+  cases l with
+  | nil => simp [minFold] at h
+  | cons c rest =>
+    simp only [minFold, Option.some.injEq] at h
+    subst h
+    have key : ∀ (l : List Rat) (init : Rat),
+        l.foldl (fun a c => if c < a then c else a) init = init ∨
+        l.foldl (fun a c => if c < a then c else a) init ∈ l := by
+      intro l
+      induction l with
+      | nil => intro init; exact Or.inl rfl
+      | cons d l ih =>
+        intro init
+        rw [List.foldl_cons]
+        rcases ih (if d < init then d else init) with h | h
+        · rw [h]; split
+          · exact Or.inr List.mem_cons_self
+          · exact Or.inl rfl
+        · exact Or.inr (List.mem_cons_of_mem _ h)
+    rcases key rest c with h | h
+    · rw [h]; exact List.mem_cons_self
+    · exact List.mem_cons_of_mem _ h
+
+theorem mem_cells {m n i j : Nat} : (i, j) ∈ cells m n ↔ i < m ∧ j < n := by
+  unfold cells
+  simp only [List.mem_flatMap, List.mem_range, List.mem_map, Prod.mk.injEq]
+  constructor
+  · rintro ⟨a, ha, b, hb, rfl, rfl⟩; exact ⟨ha, hb⟩
+  · rintro ⟨hi, hj⟩; exact ⟨i, hi, j, hj, rfl, rfl⟩
+
+/-- what `_adj_coef` guarantees about its result -/
+theorem adjCoef_bounds {q : Rat} {qt : Nat → Nat → Rat} {x : Mat Nat} {m n : Nat} {labD : LabD} {labP : LabP}
+    {c : Rat} (hq : q < 1) (h : adjCoef q qt x m n labD labP = .ok c) :
+    0 ≤ c ∧
+    (∀ i < m, ∀ j < n, hasKey labD i = true → hasKey labP j = false → (mget x i j : Rat) - q > 0 →
+      qt i j ≠ 0 ∧ ((mget x i j : Rat) - q) / qt i j ≤ c) ∧
+    (∀ i < m, ∀ j < n, hasKey labD i = false → hasKey labP j = true → qt i j > 0 →
+      1 / (((mget x i j : Rat) - q + 1) / qt i j) ≤ c) := by
+  unfold adjCoef at h
+  simp only at h
+  split at h
+  · simp at h
+  · rename_i hz
+    have halpha : ∀ i < m, ∀ j < n, hasKey labD i = true → hasKey labP j = false → (mget x i j : Rat) - q > 0 →
+        qt i j ≠ 0 ∧ ((mget x i j : Rat) - q) / qt i j ≤
+          maxFold 0 ((alphaCells q qt x m n labD labP).map (fun c => c.1 / c.2)) := by
+      intro i hi j hj hd hp hs
+      have hmem : ((mget x i j : Rat) - q, qt i j) ∈ alphaCells q qt x m n labD labP := by
+        unfold alphaCells
+        rw [List.mem_filterMap]
+        exact ⟨(i, j), mem_cells.mpr ⟨hi, hj⟩, by simp [hd, hp, hs]⟩
+      constructor
+      · intro h0
+        apply hz
+        rw [List.any_eq_true]
+        exact ⟨_, hmem, by simp [h0]⟩
+      · apply maxFold_ge_mem
+        rw [List.mem_map]
+        exact ⟨_, hmem, rfl⟩
+    have h0 : (0 : Rat) ≤ maxFold 0 ((alphaCells q qt x m n labD labP).map (fun c => c.1 / c.2)) :=
+      maxFold_ge_init _ _
+    split at h
+    · simp only [Except.ok.injEq] at h; subst h
+      refine ⟨h0, halpha, ?_⟩
+      rename_i hnone
+      intro i hi j hj hd hp hpos
+      exfalso
+      have hmem : ((mget x i j : Rat) - q + 1, qt i j) ∈ betaCells q qt x m n labD labP := by
+        unfold betaCells
+        rw [List.mem_filterMap]
+        exact ⟨(i, j), mem_cells.mpr ⟨hi, hj⟩, by simp [hd, hp, hpos]⟩
+      cases hb : (betaCells q qt x m n labD labP).map (fun c => c.1 / c.2) with
+      | nil => simp at hb; rw [hb] at hmem; simp at hmem
+      | cons a l => rw [hb] at hnone; simp [minFold] at hnone
+    · rename_i beta hbeta
+      simp only [Except.ok.injEq] at h
+      have hbeta' : ∀ i < m, ∀ j < n, hasKey labD i = false → hasKey labP j = true → qt i j > 0 →
+          beta ≤ ((mget x i j : Rat) - q + 1) / qt i j := by
+        intro i hi j hj hd hp hpos
+        apply minFold_le_mem hbeta
+        rw [List.mem_map]
+        refine ⟨((mget x i j : Rat) - q + 1, qt i j), ?_, rfl⟩
+        unfold betaCells
+        rw [List.mem_filterMap]
+        exact ⟨(i, j), mem_cells.mpr ⟨hi, hj⟩, by simp [hd, hp, hpos]⟩
+      have hbmem := minFold_mem hbeta
+      rw [List.mem_map] at hbmem
+      obtain ⟨bc, hbc, hbceq⟩ := hbmem
+      have hbpos : 0 < beta := by
+        unfold betaCells at hbc
+        rw [List.mem_filterMap] at hbc
+        obtain ⟨cell, _, hcell⟩ := hbc
+        split at hcell
+        · rename_i hcond
+          simp only [Bool.and_eq_true, decide_eq_true_eq] at hcond
+          simp only [Option.some.injEq] at hcell
+          rw [← hbceq, ← hcell]
+          apply div_pos _ hcond.2
+          have : (0 : Rat) ≤ (mget x cell.1 cell.2 : Rat) := Nat.cast_nonneg _
+          linarith
+        · simp at hcell
+      have hc : maxFold 0 ((alphaCells q qt x m n labD labP).map (fun c => c.1 / c.2)) ≤ c ∧ 1 / beta ≤ c := by
+        rw [← h]; split
+        · rename_i hge; exact ⟨le_refl _, hge⟩
+        · rename_i hlt; exact ⟨le_of_lt (not_le.mp hlt), le_refl _⟩
+      refine ⟨le_trans h0 hc.1, ?_, ?_⟩
+      · intro i hi j hj hd hp hs
+        obtain ⟨h1, h2⟩ := halpha i hi j hj hd hp hs
+        exact ⟨h1, le_trans h2 hc.1⟩
+      · intro i hi j hj hd hp hpos
+        refine le_trans ?_ hc.2
+        exact one_div_le_one_div_of_le hbpos (hbeta' i hi j hj hd hp hpos)
+
+end VL.Biprop
+
+namespace VL.Biprop
+open Finset
+
+theorem getD_map_range {α : Type} (f : Nat → α) (m i : Nat) (d : α) (hi : i < m) :
+    ((List.range m).map f).getD i d = f i := by
+  simp [List.getD_eq_getElem?_getD, hi]
+
+theorem step_update {q : Rat} {V : Mat Rat} {tgt : List Nat} {s s' : State} {c : Rat}
+    (h : step q V tgt s = .ok (.update s' c)) :
+    s'.x = s.x ∧ c ≠ 0 ∧ c < 1 ∧ ∃ labD labP, adjCoef q (quot V s) s.x V.length (nCols V) labD labP = .ok c ∧
+      s'.dc = (List.range V.length).map (fun i => if hasKey labD i then s.dc.getD i 0 * c else s.dc.getD i 0) ∧
+      s'.pc = (List.range (nCols V)).map (fun j => if hasKey labP j then s.pc.getD j 0 / c else s.pc.getD j 0) := by
+  unfold step at h
+  simp only at h
+  split at h
+  · simp at h
+  · generalize labeled q (quot V s) s.x V.length (nCols V) _ _ = L at h
+    obtain ⟨labD, labP⟩ := L
+    simp only at h
+    split at h
+    · split at h <;> simp at h
+    · cases hadj : adjCoef q (quot V s) s.x V.length (nCols V) labD labP with
+      | error e => rw [hadj] at h; simp at h
+      | ok c' =>
+        rw [hadj] at h
+        simp only at h
+        split at h
+        · simp at h
+        · rename_i hc
+          simp only [Except.ok.injEq, Step.update.injEq] at h
+          obtain ⟨hs, hcc⟩ := h
+          subst hcc; subst hs
+          simp only [Bool.or_eq_true, decide_eq_true_eq, not_or, not_le] at hc
+          exact ⟨rfl, hc.1, hc.2, labD, labP, hadj, rfl, rfl⟩
+
+/-- the loop invariant of tie-and-transfer: multipliers positive and every cell between its signposts under the
+    current multipliers -/
+def Inv (q : Rat) (V : Mat Rat) (m n : Nat) (s : State) : Prop :=
+  (∀ i < m, 0 < s.dc.getD i 0) ∧ (∀ j < n, 0 < s.pc.getD j 0) ∧
+  ∀ i < m, ∀ j < n, isRounding q (quot V s i j) (mget s.x i j)
+
+theorem update_inv {q : Rat} {V : Mat Rat} {tgt : List Nat} {s s' : State} {c : Rat}
+    (hq1 : q < 1) (hV : ∀ i j, 0 ≤ vget V i j)
+    (hinv : Inv q V V.length (nCols V) s) (h : step q V tgt s = .ok (.update s' c)) :
+    Inv q V V.length (nCols V) s' := by
+  obtain ⟨hx, hc0, hc1, labD, labP, hadj, hdc, hpc⟩ := step_update h
+  obtain ⟨hcnn, halpha, hbeta⟩ := adjCoef_bounds hq1 hadj
+  have hcpos : 0 < c := lt_of_le_of_ne hcnn (Ne.symm hc0)
+  obtain ⟨hd, hp, hcell⟩ := hinv
+  have hdc' : ∀ i < V.length, s'.dc.getD i 0 = if hasKey labD i then s.dc.getD i 0 * c else s.dc.getD i 0 := by
+    intro i hi; rw [hdc, getD_map_range _ _ _ _ hi]
+  have hpc' : ∀ j < nCols V, s'.pc.getD j 0 = if hasKey labP j then s.pc.getD j 0 / c else s.pc.getD j 0 := by
+    intro j hj; rw [hpc, getD_map_range _ _ _ _ hj]
+  refine ⟨?_, ?_, ?_⟩
+  · intro i hi; rw [hdc' i hi]; split
+    · exact mul_pos (hd i hi) hcpos
+    · exact hd i hi
+  · intro j hj; rw [hpc' j hj]; split
+    · exact div_pos (hp j hj) hcpos
+    · exact hp j hj
+  · intro i hi j hj
+    have hr := hcell i hi j hj
+    have hqt0 : 0 ≤ quot V s i j := by
+      unfold quot
+      exact mul_nonneg (mul_nonneg (hV i j) (le_of_lt (hd i hi))) (le_of_lt (hp j hj))
+    have hxnn : (0 : Rat) ≤ (mget s.x i j : Rat) := Nat.cast_nonneg _
+    rw [hx]
+    unfold quot at hr hqt0 ⊢
+    rw [hdc' i hi, hpc' j hj]
+    by_cases hdl : hasKey labD i = true
+    · by_cases hpl : hasKey labP j = true
+      · simp only [hdl, hpl, if_true]
+        have : vget V i j * (s.dc.getD i 0 * c) * (s.pc.getD j 0 / c) = vget V i j * s.dc.getD i 0 * s.pc.getD j 0 := by
+          field_simp
+        rw [this]; exact hr
+      · simp only [hdl, hpl, if_true]
+        have hpl' : hasKey labP j = false := by simpa using hpl
+        have e : vget V i j * (s.dc.getD i 0 * c) * s.pc.getD j 0 = vget V i j * s.dc.getD i 0 * s.pc.getD j 0 * c := by ring
+        rw [if_neg (by simp), e]
+        refine ⟨?_, ?_⟩
+        · rcases hr.1 with h0 | h0
+          · exact Or.inl h0
+          · right
+            by_cases hs : (mget s.x i j : Rat) - q > 0
+            · obtain ⟨hne, hle⟩ := halpha i hi j hj hdl hpl' hs
+              have hqtpos : 0 < quot V s i j := lt_of_le_of_ne hqt0 (Ne.symm hne)
+              unfold quot at hne hle hqtpos
+              rw [div_le_iff₀ hqtpos] at hle
+              linarith
+            · have : 0 ≤ vget V i j * s.dc.getD i 0 * s.pc.getD j 0 * c := mul_nonneg hqt0 hcnn
+              linarith
+        · have : vget V i j * s.dc.getD i 0 * s.pc.getD j 0 * c ≤ vget V i j * s.dc.getD i 0 * s.pc.getD j 0 := by
+            nlinarith
+          linarith [hr.2]
+    · have hdl' : hasKey labD i = false := by simpa using hdl
+      by_cases hpl : hasKey labP j = true
+      · simp only [hdl', hpl, if_true]
+        rw [if_neg (by simp)]
+        have e : vget V i j * s.dc.getD i 0 * (s.pc.getD j 0 / c) = vget V i j * s.dc.getD i 0 * s.pc.getD j 0 / c := by ring
+        rw [e]
+        have hge : vget V i j * s.dc.getD i 0 * s.pc.getD j 0 ≤ vget V i j * s.dc.getD i 0 * s.pc.getD j 0 / c := by
+          rw [le_div_iff₀ hcpos]; nlinarith
+        refine ⟨?_, ?_⟩
+        · rcases hr.1 with h0 | h0
+          · exact Or.inl h0
+          · right; linarith
+        · by_cases hpos : quot V s i j > 0
+          · have hb := hbeta i hi j hj hdl' hpl hpos
+            unfold quot at hb hpos
+            rw [one_div_div] at hb
+            have hden : (0 : Rat) < (mget s.x i j : Rat) - q + 1 := by linarith
+            rw [div_le_iff₀ hden] at hb
+            rw [div_le_iff₀ hcpos]
+            linarith
+          · have h0 : vget V i j * s.dc.getD i 0 * s.pc.getD j 0 = 0 := by
+              unfold quot at hpos; linarith
+            rw [h0]; simp; linarith
+      · simp only [hdl', hpl]
+        simpa using hr
+
+end VL.Biprop
+
+namespace VL.Biprop
+open Finset
+
+/-- fuel does not influence a successful path construction -/
+theorem augPath_det {labD : LabD} {labP : LabP} {over : List Nat} :
+    ∀ (f f' d : Nat) (p1 p2 : List (Nat × Nat × Nat)),
+      augPath labD labP over f d = .ok p1 → augPath labD labP over f' d = .ok p2 → p1 = p2
+  | 0, _, _, _, _, h, _ => by simp [augPath] at h
+  | _+1, 0, _, _, _, _, h => by simp [augPath] at h
+  | f+1, f'+1, d, p1, p2, h1, h2 => by
+    simp only [augPath] at h1 h2
+    split at h1
+    · rename_i hc; rw [if_pos hc] at h2
+      simp only [Except.ok.injEq] at h1 h2; rw [← h1, ← h2]
+    · rename_i hc; rw [if_neg hc] at h2
+      split at h1
+      · rename_i p hl
+        split at h1
+        · rename_i d' hl'
+          simp only [hl, hl'] at h2
+          cases hr1 : augPath labD labP over f d' with
+          | error e => rw [hr1] at h1; simp at h1
+          | ok r1 =>
+            cases hr2 : augPath labD labP over f' d' with
+            | error e => rw [hr2] at h2; simp at h2
+            | ok r2 =>
+              rw [hr1] at h1; rw [hr2] at h2
+              simp only [Except.ok.injEq] at h1 h2
+              rw [← h1, ← h2, augPath_det f f' d' r1 r2 hr1 hr2]
+        · simp at h1
+      · simp at h1
+
+/-- shape of a successful path: it starts at `d`, consecutive triples are linked, every source district is
+    outside `over`, the last target is in `over` -/
+def chainFrom (over : List Nat) : Nat → List (Nat × Nat × Nat) → Prop
+  | d, [] => d ∈ over
+  | d, (a, _, b) :: rest => a = d ∧ d ∉ over ∧ chainFrom over b rest
+
+theorem augPath_chain {labD : LabD} {labP : LabP} {over : List Nat} :
+    ∀ (f d : Nat) (path : List (Nat × Nat × Nat)), augPath labD labP over f d = .ok path → chainFrom over d path
+  | 0, _, _, h => by simp [augPath] at h
+  | f+1, d, path, h => by
+    simp only [augPath] at h
+    split at h
+    · rename_i hc
+      simp only [Except.ok.injEq] at h; subst h
+      simpa [chainFrom] using hc
+    · rename_i hc
+      split at h
+      · split at h
+        · rename_i d' _
+          cases hr : augPath labD labP over f d' with
+          | error e => rw [hr] at h; simp at h
+          | ok r =>
+            rw [hr] at h
+            simp only [Except.ok.injEq] at h; subst h
+            exact ⟨rfl, by simpa using hc, augPath_chain f d' r hr⟩
+        · simp at h
+      · simp at h
+
+/-- every source district on a successful path is itself the start of a successful (shorter) path -/
+theorem augPath_suffix {labD : LabD} {labP : LabP} {over : List Nat} :
+    ∀ (f d : Nat) (path : List (Nat × Nat × Nat)), augPath labD labP over f d = .ok path →
+      ∀ a ∈ path.map (·.1), ∃ f' sfx, augPath labD labP over f' a = .ok sfx ∧ sfx.length ≤ path.length
+  | 0, _, _, h => by simp [augPath] at h
+  | f+1, d, path, h => by
+    intro a ha
+    have h0 := h
+    simp only [augPath] at h
+    split at h
+    · simp only [Except.ok.injEq] at h; subst h; simp at ha
+    · split at h
+      · split at h
+        · rename_i d' _
+          cases hr : augPath labD labP over f d' with
+          | error e => rw [hr] at h; simp at h
+          | ok r =>
+            rw [hr] at h
+            simp only [Except.ok.injEq] at h; subst h
+            simp only [List.map_cons, List.mem_cons] at ha
+            rcases ha with rfl | ha
+            · exact ⟨f+1, _, h0, le_refl _⟩
+            · obtain ⟨f', sfx, h1, h2⟩ := augPath_suffix f d' r hr a ha
+              exact ⟨f', sfx, h1, by simp; omega⟩
+        · simp at h
+      · simp at h
+
+theorem augPath_nodup {labD : LabD} {labP : LabP} {over : List Nat} :
+    ∀ (f d : Nat) (path : List (Nat × Nat × Nat)), augPath labD labP over f d = .ok path →
+      (path.map (·.1)).Nodup
+  | 0, _, _, h => by simp [augPath] at h
+  | f+1, d, path, h => by
+    have h0 := h
+    simp only [augPath] at h
+    split at h
+    · simp only [Except.ok.injEq] at h; subst h; simp
+    · split at h
+      · split at h
+        · rename_i p _ d' _
+          cases hr : augPath labD labP over f d' with
+          | error e => rw [hr] at h; simp at h
+          | ok r =>
+            rw [hr] at h
+            simp only [Except.ok.injEq] at h; subst h
+            simp only [List.map_cons, List.nodup_cons]
+            refine ⟨?_, augPath_nodup f d' r hr⟩
+            intro hmem
+            obtain ⟨f', sfx, h1, h2⟩ := augPath_suffix f d' r hr d hmem
+            have := augPath_det _ _ _ _ _ h1 h0
+            rw [this] at h2
+            simp at h2
+        · simp at h
+      · simp at h
+
+theorem chain_firsts_not_over {over : List Nat} : ∀ (d : Nat) (path : List (Nat × Nat × Nat)),
+    chainFrom over d path → ∀ a ∈ path.map (·.1), a ∉ over
+  | _, [], _, a, ha => by simp at ha
+  | d, (a', p, b) :: rest, h, a, ha => by
+    obtain ⟨h1, h2, h3⟩ := h
+    simp only [List.map_cons, List.mem_cons] at ha
+    rcases ha with rfl | ha
+    · rw [h1]; exact h2
+    · exact chain_firsts_not_over b rest h3 a ha
+
+/-- target districts of a chain: the later sources, or the final district in `over` -/
+theorem chain_thirds {over : List Nat} : ∀ (d : Nat) (path : List (Nat × Nat × Nat)),
+    chainFrom over d path → ∀ t ∈ path.map (·.2.2), t ∈ (path.map (·.1)).tail ∨ t ∈ over
+  | _, [], _, t, ht => by simp at ht
+  | d, (a, p, b) :: rest, h, t, ht => by
+    obtain ⟨_, _, h3⟩ := h
+    simp only [List.map_cons, List.mem_cons] at ht
+    simp only [List.map_cons, List.tail_cons]
+    rcases ht with rfl | ht
+    · cases rest with
+      | nil => right; simpa [chainFrom] using h3
+      | cons c rest' =>
+        obtain ⟨a', p', b'⟩ := c
+        left; simp [chainFrom] at h3; simp [h3.1]
+    · rcases chain_thirds b rest h3 t ht with h | h
+      · left; exact List.mem_of_mem_tail h
+      · right; exact h
+
+theorem chain_thirds_nodup {over : List Nat} : ∀ (d : Nat) (path : List (Nat × Nat × Nat)),
+    chainFrom over d path → (path.map (·.1)).Nodup → (path.map (·.2.2)).Nodup
+  | _, [], _, _ => by simp
+  | d, (a, p, b) :: rest, h, hn => by
+    obtain ⟨h1, h2, h3⟩ := h
+    simp only [List.map_cons, List.nodup_cons] at hn ⊢
+    refine ⟨?_, chain_thirds_nodup b rest h3 hn.2⟩
+    intro hb
+    rcases chain_thirds b rest h3 b hb with h | h
+    · -- b is the first source of `rest`, so it cannot be a later source
+      cases rest with
+      | nil => simp at hb
+      | cons c rest' =>
+        obtain ⟨a', p', b'⟩ := c
+        simp only [chainFrom] at h3
+        simp only [List.map_cons, List.tail_cons] at h
+        have := hn.2
+        simp only [List.map_cons, List.nodup_cons] at this
+        exact this.1 (h3.1 ▸ h)
+    · cases rest with
+      | nil => simp at hb
+      | cons c rest' =>
+        obtain ⟨a', p', b'⟩ := c
+        simp only [chainFrom] at h3
+        exact h3.2.1 h
+
+end VL.Biprop
+
+namespace VL.Biprop
+open Finset
+
+/-- how often cell `(i, j)` receives a seat / loses a seat along a path -/
+def ups (path : List (Nat × Nat × Nat)) (i j : Nat) : Nat := path.countP (fun t => t.1 == i && t.2.1 == j)
+def downs (path : List (Nat × Nat × Nat)) (i j : Nat) : Nat := path.countP (fun t => t.2.2 == i && t.2.1 == j)
+
+/-- exact bookkeeping of `applyPath` (no distinctness needed: the `KeyError` check makes every subtraction exact) -/
+theorem applyPath_count {m n : Nat} : ∀ (path : List (Nat × Nat × Nat)) (x x' : Mat Nat),
+    shapeOk x m n = true → PathIn m n path → applyPath path x = .ok x' →
+    ∀ i j, mget x' i j + downs path i j = mget x i j + ups path i j
+  | [], x, x', _, _, h => by
+    simp only [applyPath, Except.ok.injEq] at h; subst h; intro i j; simp [ups, downs]
+  | (d, p, d') :: rest, x, x', hs, hin, h => by
+    obtain ⟨hd, hp, hd'⟩ : d < m ∧ p < n ∧ d' < m := hin (d, p, d') (List.mem_cons_self)
+    simp only [applyPath] at h
+    split at h
+    · exact absurd h (by simp)
+    · rename_i hne
+      have hs1 : shapeOk (madd1 x d p) m n = true := shapeOk_modify hs d p _
+      have hs2 : shapeOk (msub1 (madd1 x d p) d' p) m n = true := shapeOk_modify hs1 d' p _
+      have ih := applyPath_count rest _ x' hs2 (fun c hc => hin c (List.mem_cons_of_mem _ hc)) h
+      intro i j
+      have := ih i j
+      rw [mget_msub1 hs1 hd' hp, mget_madd1 hs hd hp] at this
+      rw [mget_madd1 hs hd hp] at hne
+      unfold ups downs at this ⊢
+      simp only [List.countP_cons]
+      by_cases h1 : d = i ∧ p = j
+      · by_cases h2 : d' = i ∧ p = j
+        · obtain ⟨rfl, rfl⟩ := h1
+          simp only [h2.1] at *
+          simp at this hne ⊢; omega
+        · have h2' : ¬ (d' = i ∧ p = j) := h2
+          obtain ⟨rfl, rfl⟩ := h1
+          have hd'i : d' ≠ d := fun hh => h2 ⟨hh, rfl⟩
+          simp [hd'i] at this ⊢; omega
+      · by_cases h2 : d' = i ∧ p = j
+        · obtain ⟨rfl, rfl⟩ := h2
+          have hdd : d ≠ d' := fun hh => h1 ⟨hh, rfl⟩
+          simp [hdd] at this hne ⊢; omega
+        · have e1 : ((d == i) && (p == j)) = false := by
+            simp only [Bool.and_eq_false_iff, beq_eq_false_iff_ne]; by_contra hh; push Not at hh; exact h1 hh
+          have e2 : ((d' == i) && (p == j)) = false := by
+            simp only [Bool.and_eq_false_iff, beq_eq_false_iff_ne]; by_contra hh; push Not at hh; exact h2 hh
+          simp [e1, e2, h1, h2] at this ⊢; omega
+
+theorem countP_le_one_of_nodup_map {α : Type} (f : α → Nat) (l : List α) (h : (l.map f).Nodup) (a : Nat)
+    (p : α → Bool) (hp : ∀ t, p t = true → f t = a) : l.countP p ≤ 1 := by
+  have h1 : l.countP p ≤ l.countP (fun t => f t == a) := by
+    apply List.countP_mono_left
+    intro t _ ht; simpa using hp t ht
+  have h2 : l.countP (fun t => f t == a) = (l.map f).count a := by
+    rw [List.count, List.countP_map]; rfl
+  have h3 := List.nodup_iff_count_le_one.mp h a
+  omega
+
+theorem isUp_isDown_false {q qt : Rat} {s : Nat} (h1 : isUp q qt s = true) (h2 : isDown q qt s = true) : False := by
+  simp only [isUp, isDown, Bool.and_eq_true, beq_iff_eq, decide_eq_true_eq] at h1 h2
+  linarith [h1.2, h2.1.2]
+
+theorem isRounding_up {q qt : Rat} {s : Nat} (h : isUp q qt s = true) : isRounding q qt (s + 1) := by
+  simp only [isUp, Bool.and_eq_true, beq_iff_eq] at h
+  refine ⟨Or.inr ?_, ?_⟩ <;> push_cast <;> linarith [h.2]
+
+theorem isRounding_down {q qt : Rat} {s : Nat} (h : isDown q qt s = true) : isRounding q qt (s - 1) := by
+  simp only [isDown, Bool.and_eq_true, beq_iff_eq, decide_eq_true_eq] at h
+  obtain ⟨⟨_, h2⟩, h3⟩ := h
+  have : ((s - 1 : Nat) : Rat) = (s : Rat) - 1 := by
+    rw [Nat.cast_sub h3]; simp
+  refine ⟨Or.inr ?_, ?_⟩ <;> rw [this] <;> linarith
 
 end VL.Biprop
